@@ -11,7 +11,18 @@ namespace Nv.C17
 theorem tie_facts : Nv.Gen.C17.facts = Facts.expected := by decide
 theorem tie_cfg_proved : Proved Nv.Gen.C17.cfg := by decide
 
-theorem toInt_ofNat_small (i : Nat) (h : i < 2 ^ 63) : (BitVec.ofNat 64 i).toInt = i := by
+/-- `ToBytes` can hash a HitGroup implementer, as `route_total` needs for the property's full key space
+    (fails on a tree whose `ToBytes` lacks the arm: the defect `C17:XHashIndex:HitGroup-key-unsupported`) -/
+theorem tie_hitgroup_hashable : Nv.Gen.C17.hitHashable = true := by decide
+
+/-- every key type the property lists gets an index from the regenerated routing, under both routes -/
+theorem tie_route_total (n : Nat) (k : Key) (hk : k.ty ≠ .other) : ∃ i, genXHash n k = .idx i := by
+  have hh : k.hashable Nv.Gen.C17.hitHashable = true := by
+    rw [tie_hitgroup_hashable]
+    cases hty : k.ty <;> simp_all [Key.hashable, toBytesArmsExpected]
+  exact ⟨genSearchIndex n k.hash, by simp [genXHash, hh]⟩
+
+private theorem toInt_ofNat_small (i : Nat) (h : i < 2 ^ 63) : (BitVec.ofNat 64 i).toInt = i := by
   have hn : (BitVec.ofNat 64 i).toNat = i := by
     simp only [BitVec.toNat_ofNat]; exact Nat.mod_eq_of_lt (by omega)
   rw [BitVec.toInt_eq_toNat_of_lt (by omega), hn]
@@ -50,7 +61,7 @@ theorem tie_clamp (n i : Nat) (h2 : n < 2 ^ 63) (hi : i ≤ n) : genClamp n i = 
     simp only [BitVec.toNat_ofNat]
     exact Nat.mod_eq_of_lt (by omega)
 
-theorem bsearch_le (p : Nat → Bool) : ∀ (fuel i j : Nat), i ≤ j → bsearch p fuel i j ≤ j := by
+private theorem bsearch_le (p : Nat → Bool) : ∀ (fuel i j : Nat), i ≤ j → bsearch p fuel i j ≤ j := by
   intro fuel
   induction fuel with
   | zero => intro i j h; exact h
